@@ -8,3 +8,5 @@ import NutsModel.Thm.C01Refine
 import NutsModel.Thm.C16
 import NutsModel.Thm.C19Settings
 import NutsModel.Thm.C02
+import NutsModel.Thm.C18
+import NutsModel.Thm.C15
